@@ -1,8 +1,8 @@
 CONSTANTS
-  Rotations = {0, 1, 2, 3, 4, 5, 6, 7, 8, 9, 10, 11, 12, 13, 14, 15, 16, 17, 18, 19, 20, 21, 22, 23, 24, 25, 26}
+  Rotations = {0, 1, 2, 3, 4, 5, 6, 7, 8, 9, 10, 11, 12, 13, 14, 15, 16, 17, 18, 19, 20, 21, 22, 23, 24, 25, 26, 27, 28}
   Widths = {1}
   TransportSets = {{"grpc"}, {"rest"}, {"grpc", "rest"}}
-  Namings = {"plain", "kw"}
+  Namings = {"plain", "kw", "svchost"}
   NSvcs = {1, 2}
   ReqPkgs = {"own", "dep"}
   Flattens = {FALSE}
